@@ -256,20 +256,16 @@ def run(pid, tier, seed, src_note=None):
     rep = Report(pid, tier, seed)
     cases = cases_for(pid, tier, seed)
     rows = run_impl(cases)
-    work = tlcrun.scratch_dir("eval")
-    try:
-        trace = os.path.join(work, "trace.ndjson")
-        write_ndjson(trace, rows)
-        res = tlcrun.run("EvalCases", "EvalCases.cfg", trace_file=trace, timeout=3000)
-    finally:
-        shutil.rmtree(work, ignore_errors=True)
-    if res["violated"]:
-        raise Machinery(f"design-level invariant {res['violated']} violated in EvalCases: the operational model, the "
-                        f"reference semantics or the oracle cross-check disagree on a fed case\n" + "\n".join(res["out"].splitlines()[-30:]))
-    verd = {l["i"]: l["v"] for l in res["lines"] if isinstance(l, dict) and "i" in l}
+    lines, results = tlcrun.run_chunked("EvalCases", "EvalCases.cfg", rows, timeout=1200)
+    for res in results:
+        if res["violated"]:
+            raise Machinery(f"design-level invariant {res['violated']} violated in EvalCases: the operational model, the "
+                            f"reference semantics or the oracle cross-check disagree on a fed case\n" + "\n".join(l for l in res["out"].splitlines()[-30:] if not l.startswith('"{')))
+    verd = {l["i"]: l["v"] for l in lines if isinstance(l, dict) and "i" in l}
     if len(verd) != len(rows):
         raise Machinery(f"verdict lines {len(verd)} != events {len(rows)} (trace spec did not judge every event)")
-    rep.add_tlc(res)
+    for res in results:
+        rep.add_tlc(res)
     counts = {"ok": 0, "fl": 0, "drift": 0, "skip_illcond": 0, "fl_decided": 0, "sv_crosschecked": 0}
     nontrivial = set()
     n_points = 0
